@@ -52,6 +52,7 @@ type rw struct {
 	changed bool
 	tmp     int
 	imports map[string]string // local name -> import path
+	keep    map[string]bool   // import paths whose selectors stay untouched in this package
 }
 
 func (r *rw) shim(pkg string) *ast.Ident {
@@ -99,6 +100,22 @@ func (r *rw) rewriteFile() {
 func (r *rw) pre(c *astutil.Cursor) bool {
 	switch n := c.Node().(type) {
 	case *ast.SelectStmt:
+		if r.keep["select-default"] {
+			hasDef := false
+			for _, cl := range n.Body.List {
+				if cl.(*ast.CommClause).Comm == nil {
+					hasDef = true
+				}
+			}
+			if hasDef {
+				// a non-blocking poll stays native in this package (only its bodies are rewritten)
+				for _, cl := range n.Body.List {
+					cc := cl.(*ast.CommClause)
+					cc.Body = r.walkBody(cc.Body)
+				}
+				return false
+			}
+		}
 		if _, labeled := c.Parent().(*ast.LabeledStmt); labeled {
 			fail(r.fset, n.Pos(), "labeled select")
 			return false
@@ -150,7 +167,7 @@ func (r *rw) post(c *astutil.Cursor) bool {
 		if id, ok := n.X.(*ast.Ident); ok {
 			if obj, isPkg := r.info.Uses[id].(*types.PkgName); isPkg {
 				path := obj.Imported().Path()
-				if t, ok := table[path]; ok {
+				if t, ok := table[path]; ok && !r.keep[path] {
 					sh, ok := t[n.Sel.Name]
 					if !ok {
 						sh, ok = t["*"]
@@ -316,7 +333,17 @@ func (r *rw) selectStmt(n *ast.SelectStmt) ast.Stmt {
 func main() {
 	out := flag.String("out", "", "output directory")
 	dir := flag.String("dir", "/verif/mc", "module directory from which packages are resolved")
+	keepFlag := flag.String("keep", "golang.org/x/time/rate=sync,golang.org/x/time/rate=select-default", "comma-separated pkg=importpath pairs: selectors of importpath are not redirected inside pkg")
 	flag.Parse()
+	keeps := map[string]map[string]bool{}
+	for _, kv := range strings.Split(*keepFlag, ",") {
+		if p, ip, ok := strings.Cut(kv, "="); ok {
+			if keeps[p] == nil {
+				keeps[p] = map[string]bool{}
+			}
+			keeps[p][ip] = true
+		}
+	}
 	cfg := &packages.Config{
 		Mode: packages.NeedName | packages.NeedFiles | packages.NeedCompiledGoFiles | packages.NeedSyntax | packages.NeedTypes | packages.NeedTypesInfo | packages.NeedImports,
 		Dir:  *dir,
@@ -339,7 +366,7 @@ func main() {
 			if strings.HasSuffix(path, "_test.go") {
 				continue
 			}
-			r := &rw{fset: p.Fset, info: p.TypesInfo, file: f, used: map[string]bool{}}
+			r := &rw{fset: p.Fset, info: p.TypesInfo, file: f, used: map[string]bool{}, keep: keeps[p.PkgPath]}
 			r.rewriteFile()
 			if !r.changed {
 				continue
